@@ -526,20 +526,31 @@ def periodics(factories):
     return
 
 
-def purge(node: dawgie.pl.dag.Node, target: str):
+def purge(node: dawgie.pl.dag.Node, target: str, executing: set = None):
+    # nodes that were running the target when it was withdrawn; a node can be
+    # reached over several paths so remember them for the whole walk
+    executing = set() if executing is None else executing
+
     if target in node.get('do', []):
         node.get('do').remove(target)
     if target in node.get('doing', []):
         node.get('doing').remove(target)
+        executing.add(node.tag)
     if target in node.get('todo', []):
         node.get('todo').remove(target)
 
     for child in node:
-        purge(child, target)
+        purge(child, target, executing)
 
     # a job left with nothing to do must not linger in the queue because it
-    # would block its descendants and keep the queue from ever being empty
-    if node in que and not (node.get('todo') or node.get('doing')):
+    # would block its descendants and keep the queue from ever being empty;
+    # one that was running the target stays until its worker answers so that
+    # complete() still finds it and records the outcome
+    if (
+        node in que
+        and node.tag not in executing
+        and not (node.get('todo') or node.get('doing'))
+    ):
         que.remove(node)
         node.set('status', State.waiting)
     return
